@@ -216,6 +216,13 @@ def run(ctx):
             if why:
                 ctx.problem('oracle', 'property fails on the implementation: ' + why, inputs=js, failing_input_found=True)
                 break
+    for _ in range(ctx.n(2, 8)):
+        why = oracle_levels(ctx.rng)
+        ctx.count('oracle', 'level_ladder')
+        ctx.evaluations += 8
+        if why:
+            ctx.problem('oracle', 'property fails on the implementation: ' + why, inputs={'suite': 'level_ladder'}, failing_input_found=True)
+            break
     T_in = 'nat * qsig * list qsig * list qsig * nat * list (qsig * list Z) * list (qsig * list Z)'
     for name, cs, model, eqb, tin, tout in (('lagrangian', cases, 'model', 'out_eqb', T_in, 'list qrow * option ssig'),
                                             ('q_fold', folds, "fun x => let '(n, gs, q) := x in q_fold n gs q", 'fold_eqb', 'nat * list qsig * nat', 'list qsig'),
@@ -312,6 +319,48 @@ def oracle_bounds(rng, n, fo, go, ho, p, q):
     # slack variables only relax the dual by a bounded amount that the solver drives to zero: same value (same solver, same tolerance)
     if dv[0] == 'solved' and ds[0] == 'solved' and math.isfinite(dv[1]) and math.isfinite(ds[1]) and ds[1] > dv[1] + 1e-3 * (1 + abs(dv[1])):
         return 'dual value with slacks=True (%r) exceeds the dual value with slacks=False (%r) %s' % (ds[1], dv[1], opts)
+    return None
+
+
+def oracle_levels(rng):
+    """a small equality-constrained family on which every level (p, q, ell) solves in a second: primal <= dual, the two forms agree
+    (observed strong duality on this family), the bound does not decrease with the level and never exceeds a feasible value"""
+    import sageopt as so
+    from sageopt.relaxations import sage_sigs as ss
+    y = so.standard_sig_monomials(2)
+    cc, r = rng.choice([0.3, 0.5]), rng.choice([4.0, 2.0])
+    f = y[0] + y[1] - cc * y[0] * y[1]
+    gts = [y[0] - 0.2, y[1] - 0.2]
+    eqs = [y[0] ** 2 + y[1] ** 2 - r]
+    ub = min(float(f(np.log(np.array([math.sqrt(r) * math.cos(t), math.sqrt(r) * math.sin(t)]))))
+             for t in np.linspace(0.15, math.pi / 2 - 0.15, 400)
+             if math.sqrt(r) * math.cos(t) >= 0.2 and math.sqrt(r) * math.sin(t) >= 0.2)
+    vals = {}
+    with warnings.catch_warnings():
+        warnings.simplefilter('ignore')
+        for lev in ((0, 1, 0), (0, 1, 1), (1, 1, 0), (1, 1, 1)):
+            for form in ('primal', 'dual'):
+                try:
+                    vals[(lev, form)] = ss.sig_constrained_relaxation(f, gts, eqs, form=form, p=lev[0], q=lev[1], ell=lev[2]).solve(verbose=False)
+                except Exception as e:
+                    vals[(lev, form)] = ('error', repr(e)[:60])
+    desc = 'min y0+y1-%g*y0*y1 s.t. y0,y1>=0.2, y0^2+y1^2=%g' % (cc, r)
+    for (lev, form), (st, val) in vals.items():
+        if st == 'solved' and isinstance(val, float) and math.isfinite(val) and val > ub + 1e-4 * (1 + abs(ub)):
+            return '%s: %s value %r at level %s exceeds f at a feasible point (%r)' % (desc, form, val, lev, ub)
+    for lev in ((0, 1, 0), (0, 1, 1), (1, 1, 0), (1, 1, 1)):
+        a, b = vals[(lev, 'primal')], vals[(lev, 'dual')]
+        if a[0] == b[0] == 'solved' and isinstance(a[1], float) and isinstance(b[1], float) and math.isfinite(a[1]):
+            if b[1] < a[1] - 1e-4 * (1 + abs(a[1])):
+                return '%s: at level %s the primal value %r exceeds the dual value %r' % (desc, lev, a[1], b[1])
+            if math.isfinite(b[1]) and abs(a[1] - b[1]) > 1e-3 * (1 + abs(a[1])):
+                return '%s: at level %s the primal value %r and the dual value %r are both finite and differ' % (desc, lev, a[1], b[1])
+    for form in ('primal', 'dual'):
+        for lo, hi in (((0, 1, 0), (0, 1, 1)), ((0, 1, 0), (1, 1, 0)), ((1, 1, 0), (1, 1, 1)), ((0, 1, 1), (1, 1, 1))):
+            a, b = vals[(lo, form)], vals[(hi, form)]
+            if a[0] == b[0] == 'solved' and isinstance(a[1], float) and isinstance(b[1], float) and math.isfinite(a[1]) \
+                    and b[1] < a[1] - 1e-4 * (1 + abs(a[1])):
+                return '%s: the %s bound decreases from %r at level %s to %r at the higher level %s' % (desc, form, a[1], lo, b[1], hi)
     return None
 
 
